@@ -144,7 +144,7 @@ impl Graph {
 /// Reference remapper first namespace -> second namespace of a two-namespace set (methods and classes only).
 pub struct RefRemap { class: HashMap<String, String>, tables: HashMap<String, HashMap<(String, String), String>> }
 #[derive(Clone, Debug, PartialEq, Eq)]
-pub struct Hit { pub name: String, pub depth: usize, pub via_tableless: bool }
+pub struct Hit { pub name: String, pub depth: usize, pub via_tableless: bool, pub declaring: String }
 impl RefRemap {
     pub fn new(m: &Maps) -> RefRemap {
         let mut class = HashMap::new();
@@ -167,7 +167,7 @@ impl RefRemap {
         assert!(depth < 64, "harness: cyclic hierarchy generated");
         let t = self.tables.get(owner);
         if let Some(t) = t {
-            if let Some(n) = t.get(&(name.to_string(), desc.to_string())) { return Some(Hit { name: n.clone(), depth, via_tableless: via }); }
+            if let Some(n) = t.get(&(name.to_string(), desc.to_string())) { return Some(Hit { name: n.clone(), depth, via_tableless: via, declaring: owner.to_string() }); }
         } else if stop { return None; }
         let via = via || t.is_none();
         for s in g.supers(owner)? { if let Some(h) = self.walk(g, s, name, desc, stop, depth + 1, via) { return Some(h); } }
@@ -189,6 +189,8 @@ pub struct Effect {
     // --- facts for coverage
     pub named_hit: Option<(usize, bool)>,
     pub cal_via_tableless: bool,
+    /// the naming entry belongs to a class that only a LIBRARY jar declares
+    pub named_in_library: bool,
     pub bridge: (String, String, String),
 }
 
@@ -210,9 +212,11 @@ pub fn effects(sc: &Scenario, cands: &[Candidate], cal_stop: bool, nam_stop: boo
         let s_name = sh.map(|h| h.name).unwrap_or_else(|| spec.1.clone());
         let (b_class, b_desc, s_desc) = (cal.class(&c.class), cal.desc(&c.desc), cal.desc(&spec.2));
         let nh = nam.method(&g_int, &b_class, &b_name, &b_desc, nam_stop);
-        let named_hit = nam.method(&g_int, &b_class, &b_name, &b_desc, false).map(|h| (h.depth, h.via_tableless));
+        let full = nam.method(&g_int, &b_class, &b_name, &b_desc, false);
+        let named_in_library = full.as_ref().is_some_and(|h| g_int.providers.iter().skip(1).any(|p| p.iter().any(|(c, _)| *c == h.declaring)) && !g_int.providers[0].iter().any(|(c, _)| *c == h.declaring));
+        let named_hit = full.map(|h| (h.depth, h.via_tableless));
         let named = nh.map(|h| h.name).unwrap_or_else(|| b_name.clone());
-        out.push(Effect { class: b_class, key: (s_name, s_desc), named, expect: c.expect, named_hit, cal_via_tableless: via, bridge: (c.class.clone(), c.name.clone(), c.desc.clone()) });
+        out.push(Effect { class: b_class, key: (s_name, s_desc), named, expect: c.expect, named_hit, cal_via_tableless: via, named_in_library, bridge: (c.class.clone(), c.name.clone(), c.desc.clone()) });
     }
     out
 }
